@@ -5,6 +5,7 @@ import (
 	"math/rand"
 	"os"
 
+	"verifharness/engine"
 	"verifharness/gen"
 	"verifharness/model"
 )
@@ -32,7 +33,7 @@ func init() {
 		f := parseFlags("c04", args)
 		rep := newReport("C04", f)
 		rep.Rule = "K1: random allocator scripts (begin / data alloc (also 20-220 pages) / contiguous alloc / free of fresh and of committed pages / overwrite-page alloc + free / meta alloc / commit / rollback; bounded, tiny and unbounded page limits, pre-existing fragmented free lists, regions of 250+ pages, committed overflow area) on the bare allocator vs. the extracted Coq model, full state compared after every operation; single free-list operations (both orders, unmerged lists) and the region codec. " +
-			"Oracle: random file histories with the ownership map (every id returned by Alloc must be >= 2, not live in the committed state, not freed-but-committed, not a free-list / mapping / overwrite page, not handed out twice) and content re-verification. Non-trivial: scripts with >= 1 op executed, histories with a commit; distinct by content."
+			"Oracle: random file histories with the ownership map (every id returned by Alloc must be >= 2, not live in the committed state, not freed-but-committed, not a free-list / mapping / overwrite page, not a free page of the meta area, not handed out twice), the allocator partition check after every commit (free lists disjoint, below their end markers, no page in use inside a free list) and content re-verification; plus a directed family where the meta area grows out of the data free list. Non-trivial: scripts with >= 1 op executed, histories with a commit; distinct by content."
 		m, err := model.Start()
 		if err != nil {
 			fmt.Fprintln(os.Stderr, err)
@@ -67,6 +68,36 @@ func init() {
 			if e != nil && e.Stats["commit"] > e.Stats["err:commit"] {
 				rep.nontrivial(fmt.Sprintf("%s/%v", cfg, e.Stats))
 			}
+		}
+		// directed family: files without initial meta area; a contiguous run of data pages is freed, then
+		// pages are overwritten: the meta area has to grow (also at commit time, when the new free-list pages
+		// are allocated) and takes its pages out of the data free list
+		for i := 0; i < nH/4; i++ {
+			hseed := r.Int63()
+			hr := rand.New(rand.NewSource(hseed))
+			cfg := engine.Config{PageSize: 1024, MaxSize: []uint64{0, 128 * 1024, 64 * 1024}[hr.Intn(3)]}
+			k := 8 + hr.Intn(16)
+			ops := []engine.Op{{Kind: "begin"}, {Kind: "alloc", N: k}}
+			for j := 0; j < k; j++ {
+				ops = append(ops, engine.Op{Kind: "setfull", P: j, Seed: 1 + hr.Intn(1000)})
+			}
+			ops = append(ops, engine.Op{Kind: "commit"}, engine.Op{Kind: "begin"})
+			at := 1 + hr.Intn(4)
+			for j := 3 + hr.Intn(6); j > 0; j-- {
+				ops = append(ops, engine.Op{Kind: "free", P: at}) // always the same index: a contiguous run
+			}
+			ops = append(ops, engine.Op{Kind: "commit"})
+			for t := 1 + hr.Intn(3); t > 0; t-- {
+				ops = append(ops, engine.Op{Kind: "begin", WALLimit: 1000})
+				for j := 1 + hr.Intn(3); j > 0; j-- {
+					ops = append(ops, engine.Op{Kind: "setfull", P: hr.Intn(1 << 16), Seed: 1 + hr.Intn(1000)})
+				}
+				ops = append(ops, engine.Op{Kind: "commit"})
+			}
+			ops = append(ops, engine.Op{Kind: "begin"}, engine.Op{Kind: "alloc", N: 2 + hr.Intn(5)}, engine.Op{Kind: "setfull", P: 1 << 15, Seed: 7}, engine.Op{Kind: "commit"},
+				engine.Op{Kind: "begin"}, engine.Op{Kind: "setfull", P: hr.Intn(1 << 16), Seed: 9}, engine.Op{Kind: "alloc", N: 1 + hr.Intn(3)}, engine.Op{Kind: "commit"}, engine.Op{Kind: "verify"})
+			rep.count("scenario:meta-area-grows-out-of-the-data-free-list", 1)
+			runOracleHistory(rep, cfg, ops, hseed, "", nil, nil)
 		}
 		rep.ModelCalls = m.N
 		return rep.finish(f)
